@@ -372,7 +372,7 @@ func (c *Ctx) drainBeforeEOF() {
 	for fn := range readPath {
 		loops := ir.Loops(fn)
 		for _, call := range ir.Calls(fn) {
-			if call.Common().StaticCallee() != isDone || isDone == nil {
+			if !closedFlagRead(call, isDone) {
 				continue
 			}
 			n++
@@ -419,15 +419,53 @@ func (c *Ctx) drainBeforeEOF() {
 }
 
 // readsCursor: v derives (through phis and conversions) from a call of sequence.get on the named cursor field.
+// cursorReadCall: the call reads a cursor of the ring: sequence.get() on a path ending in the sequence field, or an
+// atomic load of that sequence's cursor written out in place; returns the sequence field ("cseq" / "pseq").
+func cursorReadCall(x *ssa.Call) (string, bool) {
+	f := x.Common().StaticCallee()
+	if f == nil || len(x.Common().Args) == 0 {
+		return "", false
+	}
+	if f.Name() == "get" && recvNamed(f) == "sequence" {
+		p := ir.PathOf(x.Common().Args[0])
+		if len(p.Fields) > 0 {
+			return p.Fields[len(p.Fields)-1], true
+		}
+		return "", false
+	}
+	if f.Pkg != nil && f.Pkg.Pkg.Path() == "sync/atomic" && f.Name() == "LoadInt64" {
+		p := ir.PathOf(x.Common().Args[0])
+		if n := len(p.Fields); n >= 2 && p.Fields[n-1] == "cursor" {
+			return p.Fields[n-2], true
+		}
+	}
+	return "", false
+}
+
+// closedFlagRead: the call reads the ring's closed flag: isDone(), or an atomic load of the done field.
+func closedFlagRead(call ssa.CallInstruction, isDone *ssa.Function) bool {
+	f := call.Common().StaticCallee()
+	if f == nil {
+		return false
+	}
+	if isDone != nil && f == isDone {
+		return true
+	}
+	if f.Pkg != nil && f.Pkg.Pkg.Path() == "sync/atomic" && f.Name() == "LoadInt64" && len(call.Common().Args) > 0 {
+		p := ir.PathOf(call.Common().Args[0])
+		return len(p.Fields) > 0 && p.Fields[len(p.Fields)-1] == "done"
+	}
+	return false
+}
+
 func readsCursor(v ssa.Value, field string, d int) bool {
 	if d > 6 || v == nil {
 		return false
 	}
 	switch x := v.(type) {
 	case *ssa.Call:
-		if f := x.Common().StaticCallee(); f != nil && f.Name() == "get" && recvNamed(f) == "sequence" && len(x.Common().Args) > 0 {
-			p := ir.PathOf(x.Common().Args[0])
-			return len(p.Fields) > 0 && p.Fields[len(p.Fields)-1] == field
+		if cur, ok := cursorReadCall(x); ok {
+			return cur == field
 		}
 	case *ssa.Phi:
 		for _, e := range x.Edges {
